@@ -34,6 +34,12 @@ def corpus():
     s.append(("patterns-first-verdict-wins", ["pats n e", "login 0 1 l", "pats m e", "login 0 1 l", "login 0 3 l", "pats e n", "login 1 2 l",
                                               "chpw 1 4", "login 1 2 l", "pats m m", "login 1 4 l", "login 0 1 l", "pats m n e", "login 0 1 l"]))
     s.append(("patterns-and-erroring-server", ["pats m e", "srv 0 err52", "login 0 1 l", "chpw 0 3", "login 0 1 l", "srv 1 down", "login 0 1 l", "login 0 3 l"]))
+    # the name as typed vs the normalised name (seeded by a reviewer in checkAuth's basic-auth branch): a hash
+    # cached under 'ALICE' cannot be evicted by a rejection for 'alice' and survives into the outage
+    s.append(("typed-name-reaches-the-backend", ["login 0 1 2", "sync", "chpw 0 3", "login 0 1 1", "sync"] + dn +
+              ["login 0 1 2", "login 0 1 3", "prim slow", "login 0 1 M", "login 0 3 1"]))
+    s.append(("htpasswd-legacy-mixed-case-entry", ["ht 0 1 l", "ht 0 2 3", "ht 0 2 m", "ht 0 2 M", "ht 0 1 2", "ht 0 1 U", "ht 1 2 2",
+                                                   "ht 1 1 3", "ht 2 1 1", "ht 0 2 1", "ht 0 1 3"]))
     # double fault: the directory rejects the cached password while the primary is unreachable
     s.append(("eviction-lost-primary-down", ["login 0 1 l", "sync", "chpw 0 3", "prim down", "login 0 1 l", "prim up"] + dn + ["login 0 1 l"]))
     s.append(("eviction-lost-stale-cache", ["login 0 1 l", "sync", "chpw 0 3", "login 0 3 l", "chpw 0 4", "prim slow", "login 0 3 l", "prim up"] + dn + ["login 0 3 l"]))
@@ -107,7 +113,7 @@ def gen_seq(rng, maxlen, allow_hang=False):
                 pw = 0
             else:
                 pw = rng.randint(1, 5)
-            variant = rng.choice("llllumLUM") if pw != 0 else rng.choice("LUMl")
+            variant = rng.choice("lllumLUM112233") if pw != 0 else rng.choice("LUMl123")
             if pw and pw not in known[u]:
                 known[u].append(pw)
             ops.append("login %d %d %s" % (u, pw, variant))
@@ -232,8 +238,9 @@ def run(ctx):
         n_random = n_exh = 0
     else:
         seqs = corpus()
-        if not quick:
-            seqs = [x for x in seqs]
+        for k in range(20 if quick else 200):
+            seqs.append(("htpasswd-random-%d" % k, ["ht %d %d %s" % (rng.choice([0, 0, 0, 1, 2]), rng.randint(1, 3), rng.choice("lumLUM123123"))
+                                                  for _ in range(rng.randint(3, 8))]))
         n_script = len(seqs)
         n_random = 300 if quick else 3000
         for k in range(n_random):
@@ -244,6 +251,10 @@ def run(ctx):
                 seqs.append(("exh-%d" % k, h))
                 n_exh += 1
 
+    # histories with `ht` ops (htpasswd backend behind the application) exist only in cmd/keymasterd: they go
+    # first, the package-level harness gets the lines after them
+    seqs = [x for x in seqs if any(o.startswith("ht ") for o in x[1])] + [x for x in seqs if not any(o.startswith("ht ") for o in x[1])]
+    n_km = sum(1 for x in seqs if any(o.startswith("ht ") for o in x[1]))
     ops, names = [], []
     for k, (name, s) in enumerate(seqs):
         ops.append("seq %d" % (k + 1))
@@ -259,8 +270,10 @@ def run(ctx):
     # the real storage harness is the expensive one: it gets every scripted history and every random
     # history; the exhaustive enumeration runs on the package-level harness only
     n_full = sum(b[1] - b[0] for b in blocks[:n_script + n_random]) if not ctx.replay else len(ops)
-    runs = [("lib/pwauth/ldap", "passwordAuthenticate + reference store", ops, model),
-            ("cmd/keymasterd", "loginHandler + LDAP authenticator + RuntimeState storage", ops[:n_full], model[:n_full])]
+    lo_ldap = sum(b[1] - b[0] for b in blocks[:n_km])
+    runs = [("lib/pwauth/ldap", "passwordAuthenticate + reference store", lo_ldap, len(ops)),
+            ("cmd/keymasterd", "loginHandler/checkAuth + LDAP authenticator (or htpasswd) + RuntimeState storage", 0, n_full)]
+    runs = [(pkg, what, lo, ops[lo:hi], model[lo:hi]) for pkg, what, lo, hi in runs if hi > lo]
 
     prim_up, cur = [], True
     for o in ops:
@@ -282,13 +295,13 @@ def run(ctx):
             results[pkg] = c.run_harness(ctx, pkg, "C07", pops, timeout=3000, tag=tag)
         except Exception as e:  # noqa
             results[pkg] = ([], "exception: %r" % (e,), 99)
-    threads = [threading.Thread(target=runner, args=(pkg, pops, "h%d" % k)) for k, (pkg, _, pops, _) in enumerate(runs)]
+    threads = [threading.Thread(target=runner, args=(pkg, pops, "h%d" % k)) for k, (pkg, _, _, pops, _) in enumerate(runs)]
     for t in threads:
         t.start()
         time.sleep(1.0)   # both runs (re)write the same overlay.json before go reads it
     for t in threads:
         t.join()
-    for pkg, what, pops, pmodel in runs:
+    for pkg, what, lo, pops, pmodel in runs:
         impl, log, rc = results[pkg]
         if rc != 0 or len(impl) != len(pops):
             ctx.broken.append("harness TestVerifC07 in %s did not complete (exit %d, %d/%d lines)" % (pkg, rc, len(impl), len(pops)))
@@ -297,9 +310,10 @@ def run(ctx):
         dis = c.diff_streams(ctx, "%s vs KM.PwCache" % what, pops, impl, pmodel)
         judged = c.run_driver(ctx, "judge", [o + " => " + a for o, a in zip(pops, impl)])
         short = pkg.split("/")[-1]
-        for (a, b), name in zip(blocks, names):
-            if b > len(pops):
-                break
+        for (ga, gb), name in zip(blocks, names):
+            if ga < lo or gb - lo > len(pops):
+                continue
+            a, b = ga - lo, gb - lo
             bad = [(i, judged[i]) for i in range(a, b) if judged[i] != "ok"]
             for i in range(a, b):
                 f = impl[i].split()
@@ -319,7 +333,12 @@ def run(ctx):
                         if path == "verdict" and f[0] == "A" and before != after:
                             hist["%s:refreshed-or-replaced" % short] += 1
                     if path == "offline" and f[0] == "A":
-                        hist["%s:offline-accept-from-%s" % (short, "primary" if prim_up[i] else "cache")] += 1
+                        hist["%s:offline-accept-from-%s" % (short, "primary" if prim_up[i + lo] else "cache")] += 1
+                    hist["%s:route:%s" % (short, {"l": "form", "u": "form", "m": "form", "L": "basic", "U": "basic", "M": "basic"}.get(o[3], "checkAuth"))] += 1
+                    if o[3] not in "lL1":
+                        hist["%s:name-not-lower-case" % short] += 1
+                elif o[0] == "ht":
+                    hist["%s:htpasswd:%s:%s" % (short, {"l": "form", "u": "form", "m": "form", "L": "basic", "U": "basic", "M": "basic"}.get(o[3], "checkAuth"), f[0])] += 1
                 elif o[0] == "tamper":
                     hist["%s:tamper:%s" % (short, o[3])] += 1
                 elif o[0] == "pats":
@@ -344,14 +363,16 @@ def run(ctx):
                 key, short, name, " ".join(vf[2:]), "; ".join(history[1:])),
                 {"package": pkg, "history": history, "impl": impl[a:i + 1], "model": pmodel[a:i + 1], "judge": verdict})
         if len(samples) < 8:
-            a, b = blocks[0]
+            ga, gb = [x for x in blocks if x[0] >= lo][0]
+            a, b = ga - lo, gb - lo
             samples += [{"pkg": short, "op": o, "impl": x, "model": m} for o, x, m in list(zip(pops, impl, pmodel))[a:min(b, a + 4)]]
 
     ctx.coverage.update({
         "evaluations": evaluations,
         "distinct_nontrivial": len(nontrivial),
         "rule": "histories for two directory users (+ one unknown) over two LDAPS servers with one to three bind patterns each (entry / DN without entry / name answered with invalidDNSyntax, reconfigurable): login with current/old/wrong/empty password "
-                "(form and basic auth, three spellings of the name), server up/down/hanging/erroring (result codes 1, 51, 52, 53, 80), "
+                "(form fields or basic auth at loginHandler, basic auth through checkAuth; three spellings of the name; the identity granted must be the normalised user; "
+                "the same requests against an htpasswd file with a legacy mixed-case entry), server up/down/hanging/erroring (result codes 1, 51, 52, 53, 80), "
                 "password change/removal, clock advance, primary slow/down, synchronisation, and rows rewritten by SQL (column expiry, "
                 "foreign signature, other data type, saved row put back under any user). Every op's result, the directory's own bind "
                 "record and the four rows (signed subject/password/type/expiry, verifies?, column expiry) are compared with KM.PwCache "
